@@ -244,7 +244,7 @@ def run_case(case):
                     b.register_scenarios(scenarios=copy.deepcopy(scenarios), scenario_manager=sm)
                 else:
                     if base != "nobase":
-                        return []
+                        return None      # register_model takes no base values: not a case
                     b.register_model(model, scenario_manager=sm, scenario=copy.deepcopy(scenarios))
             else:
                 md = manager_dict(kind, proj, base, copy.deepcopy(scenarios), True)
@@ -366,11 +366,13 @@ def run(ctx):
     n = 0
     for part, r in zip(parts, res):
         for c, viol in zip(part, r):
+            if viol is None:
+                continue
             n += 1
             for clause, detail in viol:
                 ctx.violation("C07/%s/%s/%s/%s/%s" % (clause, c[0], c[1], c[2], c[3]), {"case": list(c)}, detail)
     ctx.finish({
-        "evaluations": len(cs), "distinct_nontrivial": len(cs),
+        "evaluations": len(cs), "distinct_nontrivial": n,
         "rule": "complete product model kind {dsl, xmile} x channel {dict, register_model, file, two-files, session, rest, session-after-run, rest-after-run} x manager base values "
                 "{none, constants, points, both} x scenario setting {none, constant(s), points, constant+points, start, stop, dt, all run specs, all}; "
                 "run specs for DSL models only; per case the overriding scenario s1 and its sibling s0 are compared with the direct build",
@@ -380,3 +382,6 @@ def run(ctx):
 
 def replay(case):
     return run_case(tuple(case["case"])) or None
+
+
+# (cases that do not exist - register_model with manager base values - are generated by the product and skipped; they are not counted)
